@@ -47,6 +47,11 @@ broken translator obligation):
   effects    : return type `calls:<n>` / `calls:<t1>,<t2>,...`: a method whose observable behaviour is the sequence of
                its calls `self.<m>(a1, ..., an)` for `<m>` in EFFECTS (n integer arguments / arguments of the given
                types, no keywords): the result is the list of argument tuples in call order.
+  events     : return type `ev:<t>`: calls of the methods in EVENT_CALLS (`warnings.warn`, `self._parent._perform_read`,
+               `self._parent._perform_write`) are recorded, in order, in a list of `PyEvent` (name, integer arguments,
+               bytes argument; the arguments of `warn` - a message - are not modelled) that is the LAST component of
+               the result.  `v = <event call>` (outside loops) additionally binds `v` to a new parameter `v_in` of the
+               generated definition: what the environment answers is an input.
   bytes      : parameter type "bytes": a byte string as the list of its byte values (`List Int`); `len(b)`,
                `b[i:j]` (= `pySlice b i j`, Python's clamping slice; also for other list-typed parameters).
   methods    : a FUNCS name `Class.method` selects a method of a class.
@@ -168,6 +173,10 @@ FUNCS = [
     ("rig/machine_control/scp_connection.py", "SCPConnection.read.packets",
      ["int", "ignored", "buffer_size=int", "x=int", "y=int", "p=int", "address=int"],
      "exc:gen:int,int,int,int,int,int,int"),
+    ("rig/machine_control/machine_controller.py", "SlicedMemoryIO.read",
+     ["obj:_start_address,_end_address,_offset", "int"], "ev:bytes"),
+    ("rig/machine_control/machine_controller.py", "SlicedMemoryIO.write",
+     ["obj:_start_address,_end_address,_offset", "bytes"], "ev:int"),
     ("rig/machine_control/regions.py", "RegionCoreTree.__init__",
      ["obj:base_x,base_y,scale,shift,level;skip:locally_selected,subregions", "int", "int", "int"], "none"),
 ]
@@ -190,6 +199,9 @@ TRANSPARENT_DECORATORS = ("use_contextual_arguments",)
 # module-level dicts keyed by a pair of small ints, regenerated (flattened, row-major) by another translator module:
 # name -> (Lean list of Nat, rows, columns); `D[(a, b)]` raises KeyError outside
 PAIR_DICTS = {"address_length_dtype": ("Rig.Gen.Scp.dtypeTable", 4, 4)}
+# calls recorded as events in functions declared `ev:`: method name -> (argument kinds or None = arguments not
+# modelled, type of the result or None); the receiver is `self`, an attribute chain of `self` or a module
+EVENT_CALLS = {"warn": (None, None), "_perform_read": (("int", "int"), "bytes"), "_perform_write": (("int", "bytes"), None)}
 # named tuples whose construction may be yielded: the positional arguments kept, keyword arguments ignored
 RECORD_CALLS = {"scpcall": ("callback",)}
 # classes whose construction may be returned: the integer arguments kept (by position)
@@ -238,6 +250,13 @@ def pyPairGet (t : List Nat) (rows cols : Nat) (a b : Int) : Except String Int :
     | some v => Except.ok (v : Int)
     | none => Except.error "KeyError"
   else Except.error "KeyError"
+
+/-- a call of a method of the environment, recorded by functions declared `ev:` (name, integer arguments, bytes) -/
+structure PyEvent where
+  name : String
+  ints : List Int
+  bytes : List Int
+  deriving DecidableEq, Repr
 
 /-- Python `int(math.sqrt(n))` (integer square root, exact below 2^52; `ValueError: math domain error` for n < 0) -/
 def pyIsqrt (n : Int) : Except String Int :=
@@ -373,6 +392,7 @@ class Tr(object):
         self.uses_fuel = False
         self.fn = None
         self.nloops = 0
+        self.oracles = []             # results of event calls: extra parameters (name, Lean type)
         self.localfns = {}            # nested `def f(x): return e` -> (parameter names, e)
         self.tmp_ty = {}              # hoisted temporaries -> Lean type
         self.rec_elems = {}           # list-of-records parameter -> attribute names
@@ -428,7 +448,34 @@ class Tr(object):
         return self.ret.startswith("exc:")
 
     def base(self):
-        return self.ret[4:] if self.is_exc() else self.ret
+        b = self.ret[4:] if self.is_exc() else self.ret
+        return b[3:] if b.startswith("ev:") else b
+
+    def has_events(self):
+        return (self.ret[4:] if self.is_exc() else self.ret).startswith("ev:")
+
+    def event_call(self, c):
+        """a call recorded as an event (EVENT_CALLS): -> (Lean `PyEvent` expression, result type or None) or None"""
+        if not (isinstance(c, ast.Call) and isinstance(c.func, ast.Attribute) and c.func.attr in EVENT_CALLS):
+            return None
+        # the receiver must be `self`, an attribute chain of `self` or a module name (never a translated value)
+        r = c.func.value
+        while isinstance(r, ast.Attribute):
+            r = r.value
+        if not (isinstance(r, ast.Name) and (r.id == "self" or r.id not in self.lty)):
+            return None
+        kinds, result = EVENT_CALLS[c.func.attr]
+        if not self.has_events():
+            raise NotImplementedError("event call %s in a function not declared ev:" % c.func.attr)
+        if kinds is None:
+            return "(PyEvent.mk \"%s\" [] [])" % c.func.attr, result          # arguments not modelled (messages)
+        if c.keywords or len(c.args) != len(kinds):
+            raise NotImplementedError("event call %s with %d arguments" % (c.func.attr, len(c.args)))
+        ints = [self.e(a) for a, k in zip(c.args, kinds) if k == "int"]
+        bys = [self.e(a) for a, k in zip(c.args, kinds) if k == "bytes"]
+        if len(bys) > 1 or any(self.tyof(a) != ("Int" if k == "int" else "List Int") for a, k in zip(c.args, kinds)):
+            raise NotImplementedError("event call %s: argument types" % c.func.attr)
+        return "(PyEvent.mk \"%s\" [%s] %s)" % (c.func.attr, ", ".join(ints), bys[0] if bys else "[]"), result
 
     def is_stream(self):
         """a generator / a function observed through its effect calls: the result is the list `out_`"""
@@ -478,6 +525,10 @@ class Tr(object):
             return self.lty.get(ident(n.id), "Int")
         if isinstance(n, ast.Constant) and isinstance(n.value, bool):
             return "Bool"
+        if isinstance(n, ast.Constant) and isinstance(n.value, bytes):
+            return "List Int"
+        if isinstance(n, ast.BinOp) and isinstance(n.op, ast.Add) and self.tyof(n.left).startswith("List "):
+            return self.tyof(n.left)
         sa_ = self.self_attr(n) if isinstance(n, ast.Attribute) and self.types.get("self") == "obj" else None
         if sa_ is not None and sa_[0] == "state":
             return self.lty[sa_[1]]
@@ -552,6 +603,11 @@ class Tr(object):
         return None
 
     def e(self, n):
+        if isinstance(n, ast.Constant) and isinstance(n.value, bytes):
+            return "([%s] : List Int)" % ", ".join(str(b) for b in bytearray(n.value))
+        if isinstance(n, ast.BinOp) and isinstance(n.op, ast.Add) and self.tyof(n.left).startswith("List ") \
+                and self.tyof(n.right) == self.tyof(n.left):
+            return "(%s ++ %s)" % (self.e(n.left), self.e(n.right))
         pd = self.pair_dict(n)
         if pd is not None:
             lean, rows, cols = PAIR_DICTS[pd[0]]
@@ -925,6 +981,20 @@ class Tr(object):
             return [sa[1]]
         raise NotImplementedError("assignment target " + ast.dump(t)[:80])
 
+    def event_stmt(self, s):
+        """`X.m(...)` / `v = X.m(...)` for an EVENT_CALLS method -> (event expression, result type, target) or None"""
+        if isinstance(s, ast.Expr):
+            ec = self.event_call(s.value)
+            return None if ec is None else (ec[0], ec[1], None)
+        if isinstance(s, ast.Assign) and len(s.targets) == 1 and isinstance(s.targets[0], ast.Name):
+            ec = self.event_call(s.value)
+            if ec is None:
+                return None
+            if ec[1] is None:
+                raise NotImplementedError("the result of an event call without a declared result type")
+            return ec[0], ec[1], s.targets[0].id
+        return None
+
     def is_emit(self, s):
         """`yield e` / `self.<EFFECT>(...)` as a statement -> the emitted value's AST (tuple for calls) or None"""
         if not isinstance(s, ast.Expr):
@@ -960,6 +1030,8 @@ class Tr(object):
             if nm not in out:
                 out.append(nm)
         for s in stmts:
+            if self.event_stmt(s) is not None:
+                add("out_")
             if isinstance(s, ast.Assign):
                 for t in s.targets:
                     for nm in self.target_names(t):
@@ -984,6 +1056,8 @@ class Tr(object):
         """names assigned on every path through stmts that reaches their end"""
         out = set()
         for s in stmts:
+            if self.event_stmt(s) is not None:
+                out.add("out_")
             if isinstance(s, ast.Assign):
                 for t in s.targets:
                     out.update(self.target_names(t))
@@ -1004,13 +1078,13 @@ class Tr(object):
         return any(isinstance(n, (ast.Return, ast.Raise, ast.Break, ast.Continue)) for s in stmts for n in ast.walk(s))
 
     def with_state(self, v):
-        """the function's result: the returned value and the final values of the state attributes"""
-        base = self.ret[4:] if self.is_exc() else self.ret
-        if base == "none":
-            if not self.attrs:
-                return "()"
-            return self.attrs_tuple()
-        return v if not self.attrs else "(" + ", ".join([v] + ["self_" + a for a in self.attrs]) + ")"
+        """the function's result: the returned value, the final values of the state attributes and (functions
+        declared `ev:`) the list of events"""
+        base = self.base()
+        comps = ([] if base == "none" else [v]) + ["self_" + a for a in self.attrs] + (["out_"] if self.has_events() else [])
+        if not comps:
+            return "()"
+        return comps[0] if len(comps) == 1 else "(" + ", ".join(comps) + ")"
 
     def attrs_tuple(self):
         vs = ["self_" + a for a in self.attrs]
@@ -1022,7 +1096,7 @@ class Tr(object):
             if v is not None:
                 raise NotImplementedError("return with a value in a generator")
             return "(Except.ok out_)" if self.is_exc() else "out_"
-        base = self.ret[4:] if self.is_exc() else self.ret
+        base = self.base()
         if v is None or (isinstance(v, ast.Constant) and v.value is None):
             if base != "none":
                 raise NotImplementedError("return None in a function declared " + self.ret)
@@ -1128,6 +1202,21 @@ class Tr(object):
                                                        self.exit_with("(Except.error \"AssertionError\")"))
             self.pending = mine
             return self.wrap_pending(pad, text)
+        ev = self.event_stmt(s)
+        if ev is not None:
+            expr, result, target = ev
+            if self.loops and target is not None:
+                raise NotImplementedError("the result of an event call used inside a loop")
+            text = "%slet out_ : List PyEvent := out_ ++ [%s]\n" % (pad, expr)
+            if target is not None:
+                # what the environment answers is an input of the generated definition
+                name = ident(target) + "_in"
+                if name in [o[0] for o in self.oracles]:
+                    raise NotImplementedError("two event calls assigned to " + target)
+                self.oracles.append((name, BASE_TY[result]))
+                text += "%slet %s : %s := %s\n" % (pad, ident(target), BASE_TY[result], name)
+                self.lty[ident(target)] = BASE_TY[result]
+            return self.seq(pad, text, rest, ind, tail)
         em = self.is_emit(s)
         if em is not None:
             v = self.e(em)
@@ -1605,7 +1694,12 @@ def translate(repo, rel, fname, ptypes, ret, done=None):
                     if isinstance(x, ast.Name):
                         tr.assigned_anywhere.add(ident(x.id))
     base = ret[4:] if ret.startswith("exc:") else ret
+    events = base.startswith("ev:")
+    if events:
+        base = base[3:]
     stream = base.startswith(("gen:", "calls:"))
+    if events and stream:
+        raise NotImplementedError("ev: together with gen: / calls:")
     if stream:
         rty = lean_ty(base)
         if any(tr_assigns_attr(n) for n in ast.walk(fn)):
@@ -1614,6 +1708,9 @@ def translate(repo, rel, fname, ptypes, ret, done=None):
         rty = prod(aty) if attrs else "Unit"
     else:
         rty = lean_ty(base) if not attrs else prod([lean_ty(base)] + aty)
+    if events:
+        rty = "List PyEvent" if rty == "Unit" else prod([rty, "List PyEvent"]) if " × " not in rty else rty + " × List PyEvent"
+        tr.lty["out_"] = "List PyEvent"
     if ret.startswith("exc:"):
         rty = "Except String " + paren(rty)
     tr.full_ret_ty = rty
@@ -1638,6 +1735,9 @@ def translate(repo, rel, fname, ptypes, ret, done=None):
     body = tr.block(body_stmts, 1)
     if stream:
         body = "  let out_ : %s := []\n" % lean_ty(base) + body
+    if events:
+        body = "  let out_ : List PyEvent := []\n" + body
+    sig += ["(%s : %s)" % o for o in tr.oracles]
     if tr.uses_fuel:
         sig.append("(fuel : Nat)")
     assigns_state = any(tr_assigns_attr(n) for n in ast.walk(fn))
